@@ -1,6 +1,6 @@
 """C18 — Fragment splitting helpers respect bracket and quote nesting."""
 import itertools
-from pyvc.api import contract, lemma, Loop
+from pyvc.api import contract, lemma, record, Loop
 import specs.brackets  # noqa: F401
 
 LEVEL = 'proof'
@@ -123,8 +123,11 @@ contract(BLOCK, 'BlockParser.break_separator', 'C18',
 	consts={'TOKS12': TOKS12, 'OPEN': '[({<"\''},
 	ensures=[
 		# code == spec: exactly the cuts at delimiters of code-level depth 0, segments stripped of blanks, empty last segment omitted
-		'result == blocks_upto(text, delimiter, TOKS12, len(text)) + ([text[seg_begin(text, delimiter, TOKS12, len(text)):].strip(" ")] if seg_begin(text, delimiter, TOKS12, len(text)) < len(text) else [])',
+		'result == bs_spec(text, delimiter)',
 	],
+	# T2 (statement): on bracket-balanced fragments no cut is inside a bracket or quote and no piece is unbalanced.  Needs the
+	# domination lemma between the code's scanner and the quote-aware stack machine: bounded stand-in, never counted as proved.
+	bounded_ensures=['cuts_ok(text, delimiter, result)'],
 	raises={},  # T3: no exception for any text
 	loops={0: Loop(
 		invariant=[
@@ -139,6 +142,79 @@ contract(BLOCK, 'BlockParser.break_separator', 'C18',
 			'lemma_stack_restart(text, TOKS12, old(index), index)',
 			'implies(text[old(index)] in OPEN, lemma_no_cuts(text, delimiter, TOKS12, old(index), index))',
 		])},
+)
+
+
+DECO = 'rogw/tranp/view/helper/decorator.py'
+
+
+@lemma('C18', requires=['len(c) == 1'], ensures=['s.count(c) >= 0', '(s.count(c) > 0) == (c in s)'], decreases='len(s)')
+def lemma_count_pos(s: str, c: str):
+	"""str.count is positive exactly when the character occurs."""
+	if c in s:
+		lemma_count_pos(s[s.find(c) + 1:], c)
+
+
+@lemma('C18', requires=['len(sep) == 1'], ensures=['len(s.split(sep)) >= 1', 'sep.join(s.split(sep)) == s'], decreases='len(s)')
+def lemma_split_join(s: str, sep: str):
+	"""Joining what split produced gives the string back."""
+	if sep in s:
+		lemma_split_join(s[s.find(sep) + 1:], sep)
+
+
+@lemma('C18', requires=['len(sep) == 1', 'sep in s'],
+	ensures=['len(s.split(sep)) >= 2', 's.split(sep)[0] == s[:s.find(sep)]', 'sep.join(s.split(sep)[1:]) == s[s.find(sep) + 1:]', 's.split(sep)[0] == key_of(s, i) or sep != "="', 's[s.find(sep) + 1:] == val_of(s) or sep != "="'])
+def lemma_split_head(s: str, sep: str, i: int):
+	"""`label, *remain = s.split(sep)`: label is the text before the first separator, sep.join(remain) the text after it."""
+	lemma_split_join(s[s.find(sep) + 1:], sep)
+
+
+@lemma('C18', requires=["'=' in p"], ensures=["key_of(p, i) + '=' + val_of(p) == p", "'=' not in key_of(p, i)"])
+def lemma_label_value(p: str, i: int):
+	"""Top (statement): label + '=' + value reassembles the argument piece."""
+	pass
+
+
+contract(DECO, 'DecoratorHelper._parse', 'C18',
+	lets={'P': "bs_spec(decorator[decorator.find('(') + 1:len(decorator) - 1], ',')"},
+	raises={},
+	ensures=[
+		"implies(decorator.find('(') == -1, result[0] == decorator and result[2] == '')",
+		# Top: path and argument text are the parts around the first '(' and before the final character
+		"implies(decorator.find('(') >= 0, result[0] == decorator[:decorator.find('(')] and result[2] == decorator[decorator.find('(') + 1:len(decorator) - 1])",
+		# Top: every argument piece is stored under its label (or its position) with its value -- unless a later piece uses the same key
+		"implies(decorator.find('(') >= 0, all(implies(all(key_of(P[j], j) != key_of(P[i], i) for j in range(i + 1, len(P))), "
+		"key_of(P[i], i) in result[1] and result[1][key_of(P[i], i)] == val_of(P[i])) for i in range(len(P))))",
+	],
+	top=["implies(decorator.find('(') >= 0"],
+	loops={0: Loop(
+		invariant=[
+			'_seq == P', '0 <= _i', '_i <= len(P)',
+			'all(implies(all(key_of(P[j], j) != key_of(P[i], i) for j in range(i + 1, _i)), key_of(P[i], i) in args and args[key_of(P[i], i)] == val_of(P[i])) for i in range(_i))',
+		],
+		hints_head=[
+			"implies(_i < len(P), lemma_count_pos(P[_i], '='))",
+			"implies(_i < len(P) and '=' in P[_i], lemma_split_head(P[_i], '=', _i))",
+		])},
+)
+
+
+CVH = 'rogw/tranp/implements/cpp/view/cpp_view_helper.py'
+record('CppViewHelper.Param', {'var_type': 'str', 'symbol': 'str', 'default_value': 'str'}, source=(CVH, 'CppViewHelper.Param'))
+
+contract(CVH, 'CppViewHelper.Param.parse', 'C18',
+	types={'return': 'CppViewHelper.Param'},
+	lets={'PD': "bs_spec(parameter, '=')", 'TS': "bs_spec(bs_spec(parameter, '=')[0], ' ')"},
+	raises={'IndexError': 'len(PD) == 0 or len(TS) == 0'},
+	ensures=[
+		'result.symbol == last(TS)',
+		"result.var_type == ' '.join(init(TS))",
+		"result.default_value == (PD[1] if len(PD) == 2 else '')",
+	],
+	# Top (statement): `type name [= default]` decomposes into exactly its type, name and default (bounded stand-in)
+	ghost_params={'g_type': 'str', 'g_name': 'str', 'g_default': 'str'},
+	bounded_ensures=["implies(param_wf(g_type, g_name, g_default) and parameter == g_type + ' ' + g_name + (' = ' + g_default if g_default else ''), "
+		"result.var_type == g_type and result.symbol == g_name and result.default_value == g_default)"],
 )
 
 ALPHA = 'a,()[]<>{}"\' :='
@@ -173,4 +249,27 @@ def gen_break_sep(rnd, tier):
 		yield {'text': t + rnd.choice('([{<') + t[::-1] + rnd.choice(')]}>') + t, 'delimiter': rnd.choice(DELIMS)}
 
 
-TWINS = {'BlockParser._skip_other_block': gen_skip, 'BlockParser.break_last_block': gen_last_block, 'BlockParser.break_separator': gen_break_sep}
+def gen_deco(rnd, tier):
+	names = ['a', 'b', 'x1', 'name', 'f(a=1, b=2)', '"q=="', '[1, 2]', 'k=v', 'a=b=c', 'n="x,y"', 'g(h(i), j)', '']
+	while True:
+		k = rnd.randint(0, 4)
+		args = ', '.join(rnd.choice(names) for _ in range(k))
+		yield {'self': None, 'decorator': rnd.choice(['Embed.alias', 'a.b', 'x']) + rnd.choice(['', f'({args})'])}
+
+
+def _deco_call(self=None, decorator=''):
+	from rogw.tranp.view.helper.decorator import DecoratorHelper
+	return DecoratorHelper(decorator)._parse(decorator)
+
+
+def gen_param(rnd, tier):
+	types = ['int', 'int*', 'const int&', 'std::map<int, bool>', 'std::function<void(int, int)>', 'A<B<C>>', 'unsigned long', 'T']
+	names = ['n', 'p', 'value_1', 'x']
+	dflts = ['', '0', 'nullptr', '{1, 2}', 'f(a, b)', '"a = b"', 'A<int>{}', 'std::string("x y")']
+	while True:
+		t, n, d = rnd.choice(types), rnd.choice(names), rnd.choice(dflts)
+		yield {'parameter': t + ' ' + n + (' = ' + d if d else ''), 'g_type': t, 'g_name': n, 'g_default': d}
+		yield {'parameter': ''.join(rnd.choice(ALPHA) for _ in range(rnd.randint(0, 6))), 'g_type': '', 'g_name': '', 'g_default': ''}
+
+
+TWINS = {'CppViewHelper.Param.parse': gen_param, 'DecoratorHelper._parse': gen_deco, 'BlockParser._skip_other_block': gen_skip, 'BlockParser.break_last_block': gen_last_block, 'BlockParser.break_separator': gen_break_sep}
